@@ -206,6 +206,8 @@ def reified_tree(rng):
                 else:
                     tv = fresh()
                     tgt = node(tv, depth + 1) if maybe(rng, 0.7) else rng.choice(used[:-1])
+                if maybe(rng, 0.12):
+                    tr = rng.choice([':ARG3', ':ARG0', ':mod'])       # roles that do not fit the concept: ModelError path
                 inner = [('/', concept + aln(rng, 0.2)), (tr, tgt)]
                 bs.append((sr + '-of', (rv, inner)))
             elif k < 0.6:
